@@ -135,7 +135,7 @@ class Lens(ScatteringTheory):
         pos = np.array([0 * theta, theta, phi]).reshape(3, -1)
         S = self.theory.raw_scat_matrs(
             scatterer, pos, medium_wavevec, medium_index)
-        S = np.conj(S).reshape(self.quad_npts_theta, self.quad_npts_phi, 2, 2)
+        S = np.conj(S).reshape(self.quad_npts_phi, self.quad_npts_theta, 2, 2)
         S = np.swapaxes(S, 0, 1)
         S1 = S[:, :, 1, 1].reshape(self.quad_npts_theta, self.quad_npts_phi, 1)
         S2 = S[:, :, 0, 0].reshape(self.quad_npts_theta, self.quad_npts_phi, 1)
